@@ -57,3 +57,41 @@ REGISTRY["C01"] = {
          "checks": {"quick": 100, "thorough": 1500}, "shards": {"quick": 4, "thorough": 16}},
     ],
 }
+
+REGISTRY["C03"] = {
+    "pkg": "props/c03",
+    "level": "exploration",
+    "level_text": ("Bounded-exhaustive table: every N x M in 1..4, every finishing order of the N upstream tasks (thorough: times every order of the M "
+                   "downstream tasks) for one activation, plus rapid-drawn orders for 2..3 consecutive activations of the same gateway inside a loop; "
+                   "lock-step against the token game (nothing released before the N-th arrival, exactly the M downstream tasks once each after it) and "
+                   "trace-level accounting at the gateway (M flows released and N-min(N,M) surplus arrivals consumed per activation). Exhaustive over shapes "
+                   "and orders, sampled over goroutine schedules."),
+    "level_note": LOCKSTEP_TRUST,
+    "technique": "bounded-exhaustive enumeration + rapid property test, lock-step differential against a token-game model",
+    "rule": ("start -> fork(1->N) -> N tasks -> gateway under test (N->M) -> M tasks -> join(M->1) -> end, optionally inside a loop for re-entry. "
+             "Distinct = (N, M, activations, answer order). Non-trivial = N >= 2 (a real synchronisation)."),
+    "assumptions": ["each incoming flow of the gateway carries exactly one token per activation (block-structured programs)"],
+    "tests": [
+        {"name": "TestC03Table", "mode": "plain", "shards": {"quick": 1, "thorough": 1}},
+        {"name": "TestC03Reentry", "checks": {"quick": 150, "thorough": 3000}, "shards": {"quick": 8, "thorough": 16}, "gomaxprocs": [4, 1, 2, 16]},
+    ],
+}
+
+REGISTRY["C04"] = {
+    "pkg": "props/c04",
+    "level": "exploration",
+    "level_text": ("Bounded-exhaustive table (1..4 conditional flows x default absent or at every position of the outgoing listing x all 2^k truth "
+                   "assignments x 1..3 tokens arriving, concurrently for k>1, x expr and XPath) plus rapid-drawn cases with comparison, compound, informal "
+                   "and data-object conditions, permuted declaration order and sequential/concurrent arrival. Oracle: per token exactly one downstream "
+                   "request - first true condition in listing order, else default - otherwise no flow and one ExclusiveNoEffectiveSequenceFlows error "
+                   "trace per token naming the gateway; trace-level flow count at the gateway; completion iff a route existed."),
+    "level_note": "Trusted: the 20-line routing rule in props/c04 (first true in listing order, else default), quiescence detector, schema.Parse. XPath getDataObject is excluded (the repository's own test for it is skipped as not working).",
+    "technique": "bounded-exhaustive enumeration + rapid property test against an explicit routing oracle, burst (concurrent) arrivals",
+    "rule": ("start -> (fork ->) k upstream tasks -> exclusive gateway -> one task per outgoing flow -> end. Distinct = descriptor (conditions, default position, truth "
+             "assignment, tokens, language, condition kinds, declaration seed, burst). Non-trivial = >=2 conditions true at once, or the default flow not last in the listing, or >=2 tokens."),
+    "assumptions": ["XPath conditions address variables as //name (the engine's XML view has a <doc> wrapper only when there are >=2 variables)"],
+    "tests": [
+        {"name": "TestC04Table", "mode": "plain", "shards": {"quick": 1, "thorough": 1}},
+        {"name": "TestC04Random", "checks": {"quick": 200, "thorough": 5000}, "shards": {"quick": 8, "thorough": 16}, "gomaxprocs": [4, 1, 2, 16]},
+    ],
+}
